@@ -290,6 +290,155 @@ theorem sequentialize_sound_after_any_history (m0 : SModel) (hu : (m0.map (·.lh
   rw [this]
   exact (applyOp_perm _ _).trans hp
 
+/-! ### ids: every labelling, re-labelling, `split_into_blocks` (round 4) -/
+
+/-- **Equivariance.** For every matrix (square or not, with or without a perfect matching), every id
+tuples and every pair of id maps `f`, `g` (injective or not): `blaze` on the re-labelled ids is `blaze`
+on the original ids with every block re-labelled (and sorted again, as `Block.__init__` does).  The
+decomposition depends on the incidence pattern only; the caller's ids are attached at the end -- so
+anything remembered per pattern has to have the *current* ids re-applied. -/
+theorem blaze_relabel_equivariant (f g : Int → Int) (m : List (List Bool)) (eids qids : List Int)
+    (rp cp : List Nat) :
+    blaze m (eids.map f) (qids.map g) rp cp =
+      (blaze m eids qids rp cp).map fun bs => bs.map (relabelBlock f g) :=
+  blaze_relabel f g m eids qids rp cp
+
+/-- (i)–(iv) for `blaze(im, eids, qids)` itself, i.e. after the ids are attached and sorted: for every
+`n × n` matrix with a perfect matching, every id tuples of length `n` and every inner permutations,
+`blaze` returns blocks whose eids are a permutation of `eids` and whose qids are a permutation of `qids`,
+all square, each the labelled image of a position block with a perfect matching; and when the ids are
+pairwise distinct no equation id of a block is incident (`IncId`) with a quantity id of a later block. -/
+theorem blaze_ids_valid (m : List (List Bool)) (eids qids : List Int) (rp cp : List Nat) (n : Nat)
+    (he : eids.length = n) (hq : qids.length = n) (hm : m.length = n) (hrow : ∀ row ∈ m, row.length = n)
+    (hpm : HasPerfectMatching (incOf m) (List.range n) (List.range n))
+    (hp : InnerPerms (incOf m) n rp cp) :
+    ∃ bs, blaze m eids qids rp cp = .ok bs ∧
+      (bs.flatMap (·.1)).Perm eids ∧ (bs.flatMap (·.2)).Perm qids ∧
+      (∀ b ∈ bs, b.1.length = b.2.length) ∧
+      (eids.Nodup → qids.Nodup →
+        bs.Pairwise fun b b' => ∀ e ∈ b.1, ∀ q ∈ b'.2, ¬ IncId m eids qids e q) ∧
+      (∀ b ∈ bs, ∃ pb : Block, b = labelBlock eids qids pb ∧ HasPerfectMatching (incOf m) pb.1 pb.2) := by
+  obtain ⟨bs, h, hs⟩ := blaze_id_spec m eids qids rp cp n he hq hm hrow hpm hp.1 hp.2
+  exact ⟨bs, h, hs.eids_perm, hs.qids_perm, hs.square, hs.lbt, hs.pm⟩
+
+/-- `Simultaneous.split_into_blocks(plan)`: with `n` solved equations whose steady incidence matrix over
+the `n` unknowns has a perfect matching, the blocks partition the equation ids and the unknowns, where a
+qid is an unknown -- hence in exactly one block -- iff it can be exogenized and the plan does not
+exogenize it, or the plan endogenizes it (a swapped-out variable is in no block, a swapped-in parameter
+is in one); blocks are square and lower block-triangular for the steady (any-shift) incidence. -/
+theorem split_into_blocks_valid (tokens : List (List Int)) (eids canExo exo endo : List Int)
+    (rp cp : List Nat) (n : Nat) (ht : tokens.length = n) (he : eids.length = n)
+    (hw : (wrtQids canExo exo endo).length = n)
+    (hpm : HasPerfectMatching (incOf (steadyInc tokens (wrtQids canExo exo endo))) (List.range n) (List.range n))
+    (hp : InnerPerms (incOf (steadyInc tokens (wrtQids canExo exo endo))) n rp cp) :
+    ∃ bs, splitIntoBlocks tokens eids canExo exo endo rp cp = .ok bs ∧
+      (bs.flatMap (·.1)).Perm eids ∧
+      (bs.flatMap (·.2)).Nodup ∧
+      (∀ q, q ∈ bs.flatMap (·.2) ↔ (q ∈ canExo ∧ q ∉ exo) ∨ q ∈ endo) ∧
+      (∀ b ∈ bs, b.1.length = b.2.length) ∧
+      (eids.Nodup → bs.Pairwise fun b b' => ∀ e ∈ b.1, ∀ q ∈ b'.2,
+        ¬ IncId (steadyInc tokens (wrtQids canExo exo endo)) eids (wrtQids canExo exo endo) e q) := by
+  obtain ⟨bs, h, hs⟩ := blaze_id_spec (steadyInc tokens (wrtQids canExo exo endo)) eids
+    (wrtQids canExo exo endo) rp cp n he hw (by rw [steadyInc_length, ht])
+    (fun row hr => by rw [steadyInc_row_length _ _ row hr, hw]) hpm hp.1 hp.2
+  refine ⟨bs, h, hs.eids_perm, (hs.qids_perm.nodup_iff).2 (wrtQids_nodup _ _ _), ?_, hs.square,
+    fun hne => hs.lbt hne (wrtQids_nodup _ _ _)⟩
+  intro q
+  rw [hs.qids_perm.mem_iff, mem_wrtQids]
+
+/-! ### Sequential: the permutation check, the rectangular incidence matrix (round 4) -/
+
+/-- For **every** model (repeated LHS names included): `sequentialize` never returns anything but a
+permutation of `0 .. num_equations-1`, the state afterwards is the equations in that order, and no
+equation is ever dropped or duplicated -- whether it returns or raises.  (The order from
+`sequentialize_strictly` may be partial -- the looped equations are missing from it -- and it is the
+permutation check of `reorder_equations` that keeps it from being applied.) -/
+theorem sequentialize_never_returns_non_permutation (m : SModel) :
+    (∀ π, (sequentialize m).1 = .ok π →
+      π.Perm (List.range m.length) ∧ (sequentialize m).2 = π.filterMap fun i => m[i]?) ∧
+    (sequentialize m).2.Perm m ∧ (sequentialize m).2.length = m.length := by
+  have hperm : (sequentialize m).2.Perm m := applyOp_perm m .sequentialize
+  refine ⟨?_, hperm, hperm.length_eq⟩
+  intro π h
+  rw [sequentialize_eq] at h ⊢
+  split at h
+  · rename_i hs
+    simp only [Except.ok.injEq] at h
+    subst h
+    simp only [hs, if_true]
+    exact ⟨List.Perm.refl _, (filterMap_getElem?_range' m).symm⟩
+  · rename_i hs
+    split at h
+    · rename_i hp
+      simp only [Except.ok.injEq] at h
+      subst h
+      simp only [hs, hp, if_true]
+      exact ⟨List.isPerm_iff.1 hp, by simp⟩
+    · simp at h
+
+/-- `reorder_equations(p)` never drops or duplicates an equation either -/
+theorem reorder_never_drops_equations (m : SModel) (p : List Nat) :
+    (reorderEquations m p).2.Perm m ∧ (reorderEquations m p).2.length = m.length :=
+  ⟨applyOp_perm m (.reorder p), (applyOp_perm m (.reorder p)).length_eq⟩
+
+/-- `Sequential.incidence_matrix` is `num_equations × num_unique_lhs_names`: never more columns than
+rows, and square exactly when the LHS names are pairwise distinct -/
+theorem incidence_matrix_square_iff_distinct_lhs (m : SModel) :
+    (lhsNames m).length ≤ m.length ∧
+    ((lhsNames m).length = m.length ↔ (m.map (·.lhs)).Nodup) := by
+  have h1 := dedup_length_le (m.map (·.lhs))
+  have h2 := dedup_length_eq_iff (m.map (·.lhs))
+  simp only [List.length_map] at h1 h2
+  exact ⟨h1, h2⟩
+
+/-- The correct behaviour in the square case.  With pairwise distinct LHS names the incidence matrix is
+square with every equation's own LHS on the diagonal, and `sequentialize` is exactly right: it returns
+(a permutation `π` whose application leaves the equations in a valid order) if and only if a valid order
+exists; otherwise it raises and leaves the model untouched. -/
+theorem sequentialize_correct_of_distinct_lhs (m : SModel) (hu : (m.map (·.lhs)).Nodup) :
+    (lhsNames m).length = m.length ∧ (∀ i < m.length, seqInc m i i = true) ∧
+    ((∃ π, (sequentialize m).1 = .ok π) ↔
+      ∃ σ : List Nat, σ.Perm (List.range m.length) ∧ SeqValid (σ.filterMap fun i => m[i]?)) ∧
+    (∀ π, (sequentialize m).1 = .ok π → SeqValid (sequentialize m).2) ∧
+    (∀ e, (sequentialize m).1 = .error e → (sequentialize m).2 = m) := by
+  refine ⟨(incidence_matrix_square_iff_distinct_lhs m).2.2 hu, ?_, ⟨?_, sequentialize_complete m hu⟩, ?_, ?_⟩
+  · intro i hi
+    rw [seqInc_eq hu hi hi]; simp
+  · rintro ⟨π, h⟩
+    obtain ⟨h1, h2, h3⟩ := sequentialize_sound m hu π (sequentialize m).2 (by rw [← h])
+    exact ⟨π, h1, h2 ▸ h3⟩
+  · intro π h
+    exact (sequentialize_sound m hu π (sequentialize m).2 (by rw [← h])).2.2
+  · intro e h
+    exact (sequentialize_error_state_unchanged m e h).1
+
+/-! ### the known finding `sequential-repeated-lhs`, machine-checked on the model of the current code
+
+With repeated LHS names the incidence matrix is strictly rectangular and the code's square-matrix logic
+goes wrong in all three ways recorded in known_findings.json. -/
+
+/-- `v0 = 1; v0 = v1 + 2; v1 = 3` -/
+def findingA : SModel := [⟨0, []⟩, ⟨0, [1]⟩, ⟨1, []⟩]
+/-- `v0 = v1 + 1; v1 = v0 + 2; v0 = 3` -/
+def findingB : SModel := [⟨0, [1]⟩, ⟨1, [0]⟩, ⟨0, []⟩]
+/-- `v0 = v1 + 1; v0 = 2; v1 = 3` -/
+def findingC : SModel := [⟨0, [1]⟩, ⟨0, []⟩, ⟨1, []⟩]
+
+/-- reported sequential and returned as is, although the second equation reads `v1` too early -/
+example : (lhsNames findingA).length < findingA.length ∧ isSequential findingA = true ∧
+    (sequentialize findingA).1 = .ok [0, 1, 2] ∧ ¬ SeqValid (sequentialize findingA).2 := by
+  decide +kernel
+
+/-- re-ordered to `(2, 0, 1)`, which is still not a valid order, although `(2, 1, 0)` is one -/
+example : (sequentialize findingB).1 = .ok [2, 0, 1] ∧ ¬ SeqValid (sequentialize findingB).2 ∧
+    SeqValid ([2, 1, 0].filterMap fun i => findingB[i]?) := by
+  decide +kernel
+
+/-- raises although `(2, 0, 1)` is a valid order -/
+example : (sequentialize findingC).1 = .error .notPermutation ∧
+    SeqValid ([2, 0, 1].filterMap fun i => findingC[i]?) := by
+  decide +kernel
+
 /-! ### non-vacuity -/
 
 example : HasPerfectMatching (incOf exampleMatrix) (List.range 5) (List.range 5) := by decide
@@ -337,5 +486,15 @@ example : ¬ ∃ π : List Nat, π.Perm (List.range 2) ∧
       simp at this
     · have := hv 0 (by simp) 0 (by simp) (by simp)
       simp at this
+
+/-- the id-level theorems are not vacuous: the 5×5 example under a non-monotone labelling -/
+example : blaze exampleMatrix [50, 40, 30, 20, 10] [7, 3, 9, 1, 5] [1, 0, 2, 3] [0, 1, 3, 2] =
+    .ok [([50], [7]), ([30, 40], [3, 9]), ([10, 20], [1, 5])] := by decide +kernel
+
+/-- ... and `split_into_blocks` with a plan that swaps variable `1` for parameter `11`:
+equations `0: {0, 10}`, `1: {0, 1, 2, 11}`, `2: {2, 11, 12}` over variables `0 1 2`, parameters `10 11 12` -/
+example : wrtQids [0, 1, 2] [1] [11] = [0, 2, 11] ∧
+    splitIntoBlocks [[0, 10], [0, 1, 2, 11], [2, 11, 12]] [100, 101, 102] [0, 1, 2] [1] [11] [0, 1] [0, 1] =
+      .ok [([100], [0]), ([101, 102], [2, 11])] := by decide +kernel
 
 end IrisVerif.C16
